@@ -28,7 +28,7 @@ def signature(events, at):
     ev = json.loads(events[at - 1]) if 0 < at <= len(events) else {}
     first = json.loads(events[0])
     main, pers = first.get("main"), first.get("personal")
-    failing = pers if main in ("ok", "empty") else main
+    failing = pers if main in ("ok", "empty", "utf16") else main
     if ev.get("op") == "clipath":
         return "C15|command-line|layout=%s|database-flag=%s|%s" % (ev.get("layout"), ev.get("dbflag"), "main" if not ev.get("found") else "notebook")
     parts = ["C15", str(ev.get("op"))]
@@ -78,7 +78,7 @@ def run(ctx):
                 keep.append(s)
         scen = keep + scen[:700]
     # beyond the model's grid: random configurations (fractional factors, large bases, caps below the base)
-    faults = ["ok", "missing", "perm", "isdir", "malformed", "empty"]
+    faults = ["ok", "missing", "perm", "isdir", "malformed", "empty", "utf16"]
     for _ in range(150 if q else 1500):
         scen.append({"main": rnd.choice(faults), "personal": rnd.choice(faults), "backup": rnd.choice(["", "ok", "malformed"]),
                      "maxatt": rnd.randint(-2, 5), "base": rnd.choice([0, 1, 137, 1000, 2500]),
@@ -90,7 +90,7 @@ def run(ctx):
                      "backup": "", "maxatt": rnd.choice([15, 40, 70, 130]), "base": rnd.choice([0, 1, 100]),
                      "factor": rnd.choice([2.0, 10.0, 1000.0]), "cap": rnd.choice([0, 1, 30]), "heal": rnd.choice([0, 0, 7, 14])})
     # one recovery object serving several loads: a load of good files right after a failed one, through the same object
-    loads = ("ok", "empty")
+    loads = ("ok", "empty", "utf16")
     out = []
     for s in scen:
         out.append(s)
